@@ -25,6 +25,14 @@ CHECKS = {
         text='All pairs of boolean flag vectors up to length N (7 quick, 9 thorough) through the real get_mystery_jump_mask and get_true_interval_masks; the resulting unexplained-rise and interstorm flags are proved equal to a declarative expansion of the property text, and the runs equal to the maximal True runs.',
         note='Function level: flag vectors are arbitrary booleans; rate computation and table writes of classify_interstorms belong to the DB-level harness.',
         ref='5/C04'),
+    'C05': dict(
+        text='find_offsets executed on every connected incidence pattern of up to 3 series x 3 levels (quick; 4x4 thorough) with symbolic real crossing values; numpy.linalg.solve is exact elimination on the concrete rational normal matrix.  Obligations (LRA validity): per-series residual sums against the level means are zero (stationarity of a convex quadratic = global minimum), any other stationary offset vector differs by a constant, every series sharing a level gets exactly one offset; for 2 series additionally the sum-of-squares inequality as an NRA query.',
+        note='R-mode; overlap graph assumed connected (the caller guarantee proved in C08); DB-level tables of rise/recession are not covered by this harness.',
+        ref='5/C05'),
+    'C08': dict(
+        text='(a) get_connected_components / split_mapping_by_keys on every series-by-level incidence pattern (3x3 quick, 4x4 thorough) and level order: groups equal the true chains of overlap and the kept group is a largest one.  (b) get_series_time_offsets run twice on the same symbolic series (concrete level patterns from a small value set, symbolic abscissae): second run permuted (all permutations) with an arbitrary per-series axis shift; obligations: same intervals included, the included set is one whole group, offset+crossing of every interval at every level differs between the runs by one common constant, master curve likewise.',
+        note='R-mode; level values concrete (control flow depends only on them), abscissae and shifts symbolic reals; one open known finding (single-interval main body crashes).',
+        ref='5/C08'),
     'C12': dict(
         text='regrid and build_head_mapping executed on symbolic series (2..3 samples quick, 4 thorough; |y|/step <= 2; x any strictly increasing reals; several concrete steps) with interp1d/brentq replaced by their contracts; every yielded item is proved to be the next expected level of its pair, between the two samples and on the chord; nothing missing, nothing extra.',
         note='R-mode; brentq contract = root strictly between the end points when signs differ; the nonlinear chord equation is kept as a lazy fact used only by obligations; numerical accuracy of scipy is outside (witness replays compare with the exact crossing to 1e-6).',
